@@ -94,18 +94,23 @@ int ext2fs_bg_has_super(ext2_filsys fs, dgrp_t group)
 }
 #endif
 
-/* reference: is a size acceptable as it stands?  (not available with sparse_super2, see main) */
-static int ref_acceptable(__u64 size)
+/* reference: the format rules for a size taken as it stands (not available with sparse_super2, see main) */
+static __u64 ref_groups(__u64 size) { return (size - VF_FIRST + BPG - 1) / BPG; }
+/* last group complete, or large enough for its own metadata (+50 blocks when it is not the only group) */
+static int ref_last_ok(__u64 size)
 {
-	__u64 groups = (size - VF_FIRST + BPG - 1) / BPG;
+	__u64 groups = ref_groups(size);
 	__u64 rem = (size - VF_FIRST) % BPG;
 	__u64 ovh = 2 + (__u64) IN.itb;
 	if (ref_has_backup(groups - 1))
 		ovh += 1 + (groups + VF_DPB - 1) / VF_DPB + IN.rsv_gdt;
 	if (rem && groups == 1 && rem < ovh) return 0;
 	if (rem && groups > 1 && rem < ovh + 50) return 0;
-	if (groups * VF_IPG > 0xffffffffULL) return 0;
 	return 1;
+}
+static int ref_acceptable(__u64 size)
+{
+	return ref_last_ok(size) && ref_groups(size) * VF_IPG <= 0xffffffffULL;
 }
 
 static void vf_fill(struct ext2_super_block *sb)
@@ -205,6 +210,13 @@ int main(void)
 		PROP(settled == IN.req, "an acceptable request is not reduced");
 	if (settled != IN.req)
 		PROP(ref_acceptable(settled), "a reduced size satisfies the last-group and inode-count rules of the format");
+	if (settled == IN.req && !ref_acceptable(IN.req)) {
+		/* left alone although unacceptable: only where resize_fs() will refuse the request */
+		__u64 g = ref_groups(IN.req);
+		__u64 g2 = ref_last_ok(IN.req) ? g : g - 1;	/* groups once a too-small last group is dropped */
+		PROP(g == 1 || (g2 - 1) * VF_IPG > 0xffffffffULL,
+		     "an unacceptable request is left unreduced only when it will be refused (single group too small / too many inodes)");
+	}
 	again = settled;
 	adjust_new_size(&vf_fs, &again);
 	PROP(again == settled, "settling is idempotent");
